@@ -35,6 +35,8 @@ class Ctx:
         self.prop = prop_id
         self.tier = tier
         self.repo = Repo(repo_root)
+        from .normalize import normalise
+        self.normalised = normalise(self.repo)
         from .canon import canonicalise
         self.renamed_locals = canonicalise(self.repo)
         self.fold = Folder(self.repo)
@@ -225,6 +227,7 @@ def write_evidence(ctx: Ctx, viol, kf, errors, wall_s: float, seed: int, explana
         'exhaustive': False,
     }
     cov['alpha_normalised_locals'] = ctx.renamed_locals
+    cov['normalised'] = ctx.normalised
     if ctx._cg is not None:
         cov['call_graph'] = ctx.cg.stats()
         cov['unresolved_calls'] = [f'{fn.site(n)} {ast.unparse(n)[:80]}' for fn, n in ctx.cg.unresolved]
